@@ -537,6 +537,7 @@ FOCUS = {
     "syn_des": {"parameter_variability", "common"},
     "pheno+zoi": {"parameter_variability", "common", "odes"},
     "syn_cov": {"covariate_effect"},
+    "syn_events+textcmt": {"odes"},
 }
 ALL_VARIANTS = {"syn_cov"}  # bases on which the quick tier runs every argument variant of the focused functions
 
@@ -610,7 +611,7 @@ def _warm_up():
     same code even if the tree is edited while the check runs."""
     import pharmpy.modeling as pm
 
-    for key in list(M.CORPUS)[:1] + list(M.SYNTHETIC):
+    for key in list(M.CORPUS)[:1] + list(M.SYNTHETIC) + ["syn_events+textcmt"]:
         try:
             m = M.build_base(key)
             pm.get_model_code(pm.add_peripheral_compartment(m))
